@@ -547,7 +547,7 @@ def exposure(txt):
 def _run_job(job, seed, scratch, timeout=900):
     env = dict(os.environ)
     env["PYTHONHASHSEED"] = str(seed)
-    env["PYTHONPATH"] = str(VERIF)
+    env["PYTHONPATH"] = str(VERIF) + os.pathsep + env.get("PYTHONPATH", "")  # keep a shadow tree (seedcheck) first in the workers too
     env["PYTHONDONTWRITEBYTECODE"] = "1"
     env["XDG_CONFIG_HOME"] = str(scratch / "xdg")   # no user ffcx_options.json
     env["XDG_CACHE_HOME"] = str(scratch / "xdg")
